@@ -128,6 +128,7 @@ func (e *mgrEnv) history(in *histIn) []map[string]any {
 	ncore, nnuma := len(nd.Cap), len(nd.NumaMem)
 	evs := []map[string]any{}
 	if _, err := p.SetNodeResourceInfo(ctx, node, nd.rawCapacity(), nd.rawUsage()); err != nil {
+		vt.NoteErr(err)
 		return []map[string]any{{"ev": "BadInput", "err": err.Error()}}
 	}
 	evs = append(evs, map[string]any{"ev": "HistStart", "run": in.Run, "node": nd})
@@ -274,6 +275,7 @@ func (e *mgrEnv) history(in *histIn) []map[string]any {
 		ev["live"] = lw
 		capn, usage, diffs, err := m.GetNodeResourceInfo(ctx, node, workloads(), false)
 		if err != nil {
+			vt.NoteErr(err)
 			ev["usage"] = projectUsage(nil, ncore, nnuma)
 			ev["diffs"] = -1
 		} else {
@@ -306,13 +308,14 @@ func (e *mgrEnv) fixCase(in *fixIn) []map[string]any {
 	empty.MemUsed = 0
 	empty.NumaMemUsed = make([]int64, nnuma)
 	if _, err := p.SetNodeResourceInfo(ctx, node, empty.rawCapacity(), empty.rawUsage()); err != nil {
+		vt.NoteErr(err)
 		return []map[string]any{{"ev": "BadInput", "err": err.Error()}}
 	}
 	ws := []*coretypes.Workload{}
 	lw := []any{}
 	for i, k := range in.Kinds {
 		r, _, err := m.Alloc(ctx, node, 1, allocOpts(k, nd.B))
-		if err != nil {
+		if vt.NoteErr(err) || err != nil {
 			continue
 		}
 		id := fmt.Sprintf("f%d", i)
@@ -323,6 +326,7 @@ func (e *mgrEnv) fixCase(in *fixIn) []map[string]any {
 	}
 	// 2. overwrite usage with the drifted one
 	if _, err := p.SetNodeResourceInfo(ctx, node, nd.rawCapacity(), nd.rawUsage()); err != nil {
+		vt.NoteErr(err)
 		return []map[string]any{{"ev": "BadInput", "err": err.Error()}}
 	}
 	ev := map[string]any{"ev": "FixCase", "run": in.Run, "node": nd, "live": lw}
@@ -432,6 +436,10 @@ func TestCpuMemHistory(t *testing.T) {
 			defer sup.close()
 			for req := range ch {
 				ev, fail := sup.run(t, req)
+				if fail == "" && ev["ev"] == "EnvFail" {
+					vt.NoteEnvDrop()
+					continue
+				}
 				mu.Lock()
 				if fail != "" {
 					atomic.AddInt64(&crashes, 1)
